@@ -14,6 +14,7 @@ import RavenModel.Model.Split
 import RavenModel.Model.Blob
 import RavenModel.Model.SearchImpl
 import RavenModel.Model.Slices
+import RavenModel.Model.Lifetime
 /-! Line protocol: one op per line (`op arg …`, byte-string args hex encoded, `-` = empty, `.` = empty list),
 one canonical line out. Stateful ops (`m.*`) act on the driver's mailbox-machine state. -/
 open Raven
@@ -329,6 +330,30 @@ def opsSlices : List String → Option String
       | _, _ => "panic")
   | _ => none
 
+/-- C20 lifetime: `t.deadline state lmtpTimeout`, `t.fail state eof|deadline`, `t.bound state lmtpTimeout`, `t.srv events…` -/
+def stOf : String → Option Lifetime.St
+  | "imapCmd" => some .imapCmd | "imapLiteral" => some .imapLiteral | "imapAuthWait" => some .imapAuthWait
+  | "imapIdle" => some .imapIdle | "lmtpCmd" => some .lmtpCmd | "lmtpData" => some .lmtpData | "saslCmd" => some .saslCmd
+  | "closed" => some .closed | _ => none
+def stName : Lifetime.St → String
+  | .imapCmd => "imapCmd" | .imapLiteral => "imapLiteral" | .imapAuthWait => "imapAuthWait" | .imapIdle => "imapIdle"
+  | .lmtpCmd => "lmtpCmd" | .lmtpData => "lmtpData" | .saslCmd => "saslCmd" | .closed => "closed"
+def optNat : Option Nat → String | some n => toString n | none => "none"
+def opsLife : List String → Option String
+  | ["t.deadline", s, t] => (stOf s).map fun st => optNat (Lifetime.deadlineMs t.toNat! st)
+  | ["t.bound", s, t] => (stOf s).map fun st => optNat (Lifetime.silenceBound t.toNat! st)
+  | ["t.fail", s, f] => (stOf s).bind fun st =>
+      match f with
+      | "eof" => some (stName (Lifetime.fail st .eof))
+      | "deadline" => some (stName (Lifetime.fail st .deadline))
+      | _ => none
+  | "t.srv" :: evs =>
+    let es := evs.filterMap fun e => match e with
+      | "dial" => some Lifetime.SEv.dial | "connDone" => some .connDone | "shutdown" => some .shutdown | "acceptorExit" => some .acceptorExit | _ => none
+    let (s, as) := Lifetime.srun { listening := true, stopping := false, conns := 0, acceptors := 1 } es
+    some (" ".intercalate (as.map boolS) ++ " | conns=" ++ toString s.conns ++ " started_returned=" ++ boolS (Lifetime.startReturned s))
+  | _ => none
+
 def step (st0 : DState) (line : String) : DState × String :=
   let args := (line.trimAscii.toString.splitOn " ").filter (· ≠ "")
   match opsSearch st0 args with
@@ -347,7 +372,7 @@ where
   match opsMail st args with
   | some r => r
   | none =>
-    match (opsC18 args <|> opsC09 args <|> opsC10 args <|> opsC16 args <|> opsC17 args <|> opsC04 args <|> opsC13 args <|> opsMime args <|> opsBlob args <|> opsSlices args) with
+    match (opsC18 args <|> opsC09 args <|> opsC10 args <|> opsC16 args <|> opsC17 args <|> opsC04 args <|> opsC13 args <|> opsMime args <|> opsBlob args <|> opsSlices args <|> opsLife args) with
     | some r => (st, r)
     | none => (st, "bad-op")
 
